@@ -67,6 +67,10 @@ class G:
         r = self.r
         name = r.choice(NAMES)
         kind = r.random()
+        if kind < 0.06:
+            # a fold written by hand with the very parameter names the lowering uses, holding shortcuts itself
+            self.must += 1
+            return call("Aggregate", self.seq(d - 1), C(r.choice([0, 1])), lam(["acc", "v"], ast.BinOp(left=N("acc"), op=ast.Add(), right=call(r.choice(NAMES), N("v")))))
         if kind < 0.5:
             self.must += 1
             return call(name, self.seq(d - 1))
@@ -121,6 +125,9 @@ class G:
         return ast.Tuple(elts=[self.num(d), self.shortcut(d)], ctx=ast.Load())
 
 
+_SHARED = {}
+
+
 def aggregates_in(out):
     """(name-guess, Aggregate node) for every Aggregate call with the (seq, 0, lambda) shape."""
     return [n for n in astx.walk_nodes(out) if isinstance(n, ast.Call) and isinstance(n.func, ast.Name) and n.func.id == "Aggregate" and len(n.args) == 3]
@@ -132,7 +139,9 @@ def judge(ctx, q, info, unjudged=False, must=0, mustnot=0):
     key = astx.dump_fields(q)
     witness = {"query": astx.unparse(q), "info": info, "unjudged": unjudged}
     try:
-        out = aggregate_node_transformer().visit(astx.clone(q))
+        # alternate between a fresh transformer and one instance shared by the whole shard (state kept between visits)
+        tr = _SHARED.setdefault("tr", aggregate_node_transformer()) if ctx.evaluations % 2 else aggregate_node_transformer()
+        out = tr.visit(astx.clone(q))
     except Exception as e:
         ctx.case(key, True)
         ctx.violation(f"exc:{type(e).__name__}", f"{type(e).__name__}: {e} | in: {witness['query'][:400]}", witness)
@@ -147,6 +156,13 @@ def judge(ctx, q, info, unjudged=False, must=0, mustnot=0):
         ctx.violation("differs-from-reference-lowering", f"{d} | in: {witness['query'][:400]} | out: {astx.unparse(out)[:400]}", witness)
         return
     ctx.count("obligation:structure-equal")
+    # lowering the result again must change nothing (everything that had to be lowered is already lowered)
+    try:
+        again = tr.visit(astx.clone(out))
+        if not astx.struct_eq(again, refimpl.lower_aggregates(out)):
+            ctx.violation("re-application-differs-from-reference", f"{astx.first_diff(again, refimpl.lower_aggregates(out))} | in: {witness['query'][:300]}", witness)
+    except Exception as e:
+        ctx.violation(f"exc-on-reapplication:{type(e).__name__}", f"{e} | in: {witness['query'][:300]}", witness)
 
 
 def judge_folds(ctx):
@@ -185,7 +201,7 @@ def judge_folds(ctx):
 
 DIRECTED = [
     "Sum(a, b)", "Sum()", "Max()", "Min()", "len()", "Count()", "Max(a, b, c)", "x.Sum()", "x.len()", "f(Sum)", "Sum",
-    "len(Select(jets, lambda j: Count(j.trks)))", "Select(s, lambda Sum: Sum(x))", "Sum(x, 0, lambda a, b: a)", "Sum([Count(t) for t in ts])", "Max([Count(t), len(u)])", "Sum(a if Count(b) > 5 else b)", "Min(e.jets[Count(e.mu)].pt)", "Sum(x + [len(y)])", "Sum(len(t) for t in ts)",
+    "len(Select(jets, lambda j: Count(j.trks)))", "Select(s, lambda Sum: Sum(x))", "Sum(x, 0, lambda a, b: a)", "Aggregate(jets, 0, lambda acc, v: acc + len(v))", "Aggregate(jets, 0, lambda acc, v: acc + Sum(v.pts))", "Aggregate(Select(s, lambda j: Count(j.t)), 1, lambda acc, v: acc if acc > Max(v) else Min(v))", "Sum([Count(t) for t in ts])", "Max([Count(t), len(u)])", "Sum(a if Count(b) > 5 else b)", "Min(e.jets[Count(e.mu)].pt)", "Sum(x + [len(y)])", "Sum(len(t) for t in ts)",
     "Count(x, y)", "len(x, y)", "Min(Max(Sum(x)))", "[Sum(x) for x in y]", "np.Sum(x)", "Sum(seq=x)",
 ]
 
